@@ -45,4 +45,11 @@ theorem stops_gone : Extracted.stopsGone = treeStopsGone := by decide
     the variant `stopped_when_operator_exits` / `nothing_spawned_while_exiting` are about -/
 theorem marks_exiting : Extracted.marksExiting = treeMarksExiting := by decide
 
+/-- every sleep of `_timer` / `_daemon` is interrupted by the instance's stopper: what `sleepSuspends` (a set stopper
+    never suspends) and with it `stopped_timer_returns` / `stopped_daemon_returns` presume -/
+theorem sleeps_wake_on_stop : Extracted.sleepsWakeOnStop = true := by decide
+
+/-- `_timer` re-checks the stopper after the wait for idleness (`tstep` at `idleDone`): `stopped_timer_returns` -/
+theorem timer_rechecks_stop_after_idle : Extracted.timerRechecksStopAfterIdle = true := by decide
+
 end Kopf.C09.Tie
